@@ -899,6 +899,21 @@ fn giant(args: &Args) -> ! {
         "C05",
         "one container whose entry store is a single checked block of 19.2 MB (300000 entries x 8 unsigned 8-byte properties), file-backed; the value of entry j, property k is a function of (j,k), located in the file by its byte pattern; for j in {0, 1000, 150000, 262143, 299999} x {bit 0, bit 7 of the first byte, last byte xor ff, 8 bytes zeroed}: the container is re-opened and entry j read: every property is as written or the read fails; non-trivial = every case",
     );
+    // --mmap-refusals: the same walk with the environment refusing file mappings (shim/mmapfail.c)
+    let mm = if args.flag("--mmap-refusals") {
+        match jbkmc::mmapfail::MmapSwitch::from_env() {
+            Some(m) => Some(m),
+            None => {
+                rep.machinery_errors.push("--mmap-refusals needs LD_PRELOAD=shim/mmapfail.so with MMAPFAIL_SWITCH and MMAPFAIL_LOG".into());
+                rep.finish(args);
+            }
+        }
+    } else {
+        None
+    };
+    if mm.is_some() {
+        rep.rule = format!("{}; here every read is repeated once per answer of the environment to the file mappings the reader asks for: the k-th mapping of the run refused (ENOMEM) for every k, and all of them refused; a refused mapping must end in an error or in values as written", rep.rule);
+    }
     const N: u64 = 300_000;
     let value = |j: u64, k: u64| -> u64 { 0xA5_00_00_00_00_00_00_00 | (k << 48) | (j.wrapping_mul(2_654_435_761) & 0xFFFF_FFFF_FFFF) };
     let dir = jbkmc::scratch_dir("giant");
@@ -964,6 +979,12 @@ fn giant(args: &Args) -> ! {
         Ok(v)
     };
     let picks = [0u64, 1000, 150_000, 262_143, N - 1];
+    let mut total_mappings = 0i64;
+    let mut total_refused = 0i64;
+    let replay_case: Option<J> = args.replay.as_ref().map(|p| {
+        let r: J = serde_json::from_str(&std::fs::read_to_string(p).expect("replay")).unwrap();
+        if r.get("case").is_some() { r["case"].clone() } else { r }
+    });
     for &j in &picks {
         let want: Vec<u64> = (0..8).map(|k| value(j, k)).collect();
         match jbkmc::catch(|| read_entry(j)) {
@@ -1005,7 +1026,26 @@ fn giant(args: &Args) -> ! {
                     f.write_all(&[*b]).unwrap();
                 }
             }
-            let got = jbkmc::catch(|| read_entry(j));
+            // answers of the environment: none refused (and, under the shim, count the mappings),
+            // then each single refusal, then all refused
+            let mut runs: Vec<(i64, Result<Result<Vec<u64>, String>, String>)> = vec![];
+            if let Some(m) = &mm {
+                m.set(0);
+            }
+            runs.push((0, jbkmc::catch(|| read_entry(j))));
+            if let Some(m) = &mm {
+                let (asked, _) = m.stats();
+                total_mappings += asked;
+                let mut ks: Vec<i64> = (1..=asked).collect();
+                ks.push(-1);
+                for k in ks {
+                    m.set(k);
+                    let r = jbkmc::catch(|| read_entry(j));
+                    total_refused += m.stats().1;
+                    runs.push((k, r));
+                }
+                m.set(0);
+            }
             {
                 use std::io::{Seek, SeekFrom, Write};
                 let mut f = std::fs::OpenOptions::new().write(true).open(&path).unwrap();
@@ -1014,14 +1054,22 @@ fn giant(args: &Args) -> ! {
                     f.write_all(&[pristine[*at]]).unwrap();
                 }
             }
+            for (k, got) in runs {
+            let case = if mm.is_some() { let mut c = case.clone(); c["refused_mapping"] = json!(k); c["sub"] = json!("c05giant-mmap"); c } else { case.clone() };
+            if let Some(r) = &replay_case {
+                if r.get("refused_mapping").is_some() && r["refused_mapping"] != json!(k) {
+                    continue;
+                }
+            }
+            let refusal = if k == 0 { "" } else if k < 0 { " (every mapping refused)" } else { " (one mapping refused)" };
             let id = case.to_string();
             match got {
-                Ok(Err(e)) => rep.case(Some(&id), &format!("error: {}", e.split_whitespace().take(4).collect::<Vec<_>>().join(" "))),
-                Ok(Ok(v)) if v == want => rep.case(Some(&id), "reads as written"),
+                Ok(Err(e)) => rep.case(Some(&id), &format!("error: {}{refusal}", e.split_whitespace().take(4).collect::<Vec<_>>().join(" "))),
+                Ok(Ok(v)) if v == want => rep.case(Some(&id), &format!("reads as written{refusal}")),
                 Ok(Ok(v)) => {
                     rep.case(Some(&id), "violation");
                     rep.violation(
-                        "C05 silently different: property values of an entry in a checked block above 16 MiB",
+                        &format!("C05 silently different: property values of an entry in a checked block above 16 MiB{refusal}"),
                         &format!("entry {j} after {name} at byte {pos}: read {:x?}, written {:x?}", v, want),
                         case.clone(),
                     );
@@ -1034,6 +1082,14 @@ fn giant(args: &Args) -> ! {
             if rep.samples.len() < 3 {
                 rep.sample(case);
             }
+            }
+        }
+    }
+    if mm.is_some() {
+        rep.extra.insert("file_mappings_asked_for".into(), json!(total_mappings));
+        rep.extra.insert("file_mappings_refused".into(), json!(total_refused));
+        if total_refused == 0 && args.replay.is_none() {
+            rep.machinery_errors.push("no file mapping was refused: the mmapfail shim is not in the process, or the reader no longer maps this block".into());
         }
     }
     rep.finish(args)
@@ -1065,6 +1121,24 @@ fn sweep(args: &Args, prop: &'static str) -> ! {
     if t {
         ns.extend(16_380..=16_390);
     }
+    // --mmap-refusals: the environment refuses every file mapping (shim/mmapfail.c); only packs
+    // whose tables reach the 4 KiB above which the reader maps a block instead of reading it
+    let mm = if args.flag("--mmap-refusals") {
+        match jbkmc::mmapfail::MmapSwitch::from_env() {
+            Some(m) => Some(m),
+            None => {
+                rep.machinery_errors.push("--mmap-refusals needs LD_PRELOAD=shim/mmapfail.so with MMAPFAIL_SWITCH and MMAPFAIL_LOG".into());
+                rep.finish(args);
+            }
+        }
+    } else {
+        None
+    };
+    if mm.is_some() {
+        ns = (1000..=if t { 4400 } else { 1100 }).collect();
+        rep.rule = format!("{}; here N = 1000.. only, contents of 1..5 bytes (content i has 1 + i mod 5 bytes) in a third variant, and the environment refuses every file mapping the reader asks for (ENOMEM): a block that cannot be mapped must end in an error or in values as written", rep.rule);
+    }
+    let lens: Vec<usize> = if mm.is_some() { vec![1, 130, 0] } else { vec![1, 130] };
     let dir = jbkmc::scratch_dir("sweep");
     let replay: Option<J> = args.replay.as_ref().map(|p| {
         let j: J = serde_json::from_str(&std::fs::read_to_string(p).expect("replay")).unwrap();
@@ -1072,7 +1146,7 @@ fn sweep(args: &Args, prop: &'static str) -> ! {
     });
     let mut jobs: Vec<(usize, usize)> = vec![];
     for &n in &ns {
-        for len in [1usize, 130] {
+        for &len in &lens {
             if len == 130 && n > 1100 && n < 16_000 {
                 continue;
             }
@@ -1084,26 +1158,47 @@ fn sweep(args: &Args, prop: &'static str) -> ! {
             jobs.push((n, len));
         }
     }
-    let content = |i: usize, len: usize| -> Vec<u8> { (0..len).map(|k| (i * 31 + k * 7 + 1) as u8).collect() };
+    // len 0 stands for "sizes vary": content i has 1 + i mod 5 bytes
+    let content = |i: usize, len: usize| -> Vec<u8> { (0..if len == 0 { 1 + i % 5 } else { len }).map(|k| (i * 31 + k * 7 + 1) as u8).collect() };
     struct Out {
         id: String,
         outcome: String,
         violation: Option<(String, String, J)>,
+    }
+    // packs are created with mappings granted, read with mappings refused: two passes
+    let build = |n: usize, len: usize, path: &Path| {
+        let up = camino::Utf8PathBuf::from_path_buf(path.to_path_buf()).unwrap();
+        jbkmc::catch(|| -> Result<(), String> {
+            let mut c = jubako::creator::ContentPackCreator::new(&up, jubako::PackId::from(1), jubako::VendorId::from(jbkmc::packs::VENDOR), Default::default(), jubako::creator::Compression::None).map_err(|e| e.to_string())?;
+            for i in 0..n {
+                c.add_content(Box::new(std::io::Cursor::new(content(i, len))), jubako::creator::CompHint::No).map_err(|e| e.to_string())?;
+            }
+            c.finalize().map_err(|e| e.to_string())?;
+            Ok(())
+        })
+    };
+    let mut prebuilt: BTreeMap<(usize, usize), String> = BTreeMap::new();
+    if let Some(m) = &mm {
+        let r: Vec<((usize, usize), String)> = jobs
+            .par_iter()
+            .map(|&(n, len)| ((n, len), format!("{:?}", build(n, len, &dir.path().join(format!("s{n}_{len}.jbkc"))))))
+            .collect();
+        prebuilt.extend(r);
+        m.set(-1);
     }
     let results: Vec<Vec<Out>> = jobs
         .par_iter()
         .map(|&(n, len)| {
             let mut outs = vec![];
             let path = dir.path().join(format!("s{n}_{len}.jbkc"));
-            let up = camino::Utf8PathBuf::from_path_buf(path.clone()).unwrap();
-            let built = jbkmc::catch(|| -> Result<(), String> {
-                let mut c = jubako::creator::ContentPackCreator::new(&up, jubako::PackId::from(1), jubako::VendorId::from(jbkmc::packs::VENDOR), Default::default(), jubako::creator::Compression::None).map_err(|e| e.to_string())?;
-                for i in 0..n {
-                    c.add_content(Box::new(std::io::Cursor::new(content(i, len))), jubako::creator::CompHint::No).map_err(|e| e.to_string())?;
+            let built = if mm.is_some() {
+                match prebuilt.get(&(n, len)) {
+                    Some(s) if s == "Ok(Ok(()))" => Ok(Ok(())),
+                    other => Ok(Err(format!("{other:?}"))),
                 }
-                c.finalize().map_err(|e| e.to_string())?;
-                Ok(())
-            });
+            } else {
+                build(n, len, &path)
+            };
             if !matches!(built, Ok(Ok(()))) {
                 outs.push(Out { id: format!("{n}/{len}"), outcome: "machinery".into(), violation: Some(("MACHINERY".into(), format!("cannot create the pack n={n} len={len}: {built:?}"), json!({}))) });
                 return outs;
@@ -1141,6 +1236,7 @@ fn sweep(args: &Args, prop: &'static str) -> ! {
                 let mut bytes = pristine.clone();
                 bytes[at] ^= mask;
                 std::fs::write(&path, &bytes).unwrap();
+                let case = if mm.is_some() { let mut c = case.clone(); c["refused_mapping"] = json!(-1); c } else { case };
                 let got = jbkmc::catch(|| -> Vec<Result<Vec<u8>, String>> {
                     let pack = match jubako::FileSource::open(&path).map_err(|e| e.to_string()).and_then(|f| jubako::reader::ContentPack::new(jubako::Reader::from(f)).map_err(|e| jerr(e).to_string())) {
                         Ok(p) => p,
@@ -1196,6 +1292,15 @@ fn sweep(args: &Args, prop: &'static str) -> ! {
             outs
         })
         .collect();
+    if let Some(m) = &mm {
+        let (asked, refused) = m.stats();
+        m.set(0);
+        rep.extra.insert("file_mappings_asked_for".into(), json!(asked));
+        rep.extra.insert("file_mappings_refused".into(), json!(refused));
+        if refused == 0 && args.replay.is_none() {
+            rep.machinery_errors.push("no file mapping was refused: the mmapfail shim is not in the process, or the reader no longer maps these blocks".into());
+        }
+    }
     for o in results.into_iter().flatten() {
         rep.case(Some(&o.id), &o.outcome);
         if rep.samples.len() < 3 && o.outcome != "machinery" {
